@@ -3,7 +3,10 @@ package c16
 import (
 	"context"
 	"fmt"
+	"io"
 	"math"
+	"os"
+	"path/filepath"
 	"runtime"
 	"sort"
 	"strconv"
@@ -34,12 +37,16 @@ import (
 //	i…  accumulator, IncrementInt64 by 2^id
 //	u…  accumulator, Uint32SlicePush of element id
 //	p…  accumulator, PatchTreasures SET field "f<id>" (CreateIfNotExist)
+//	b…  register, written N at a time by one Set request (kind "bulk")
 type opSpec struct {
 	Id   int      `json:"id"`             // unique in the case, 1..62
 	Kind string   `json:"kind"`           // set setexp inc push patch | del shiftkeys shiftexp destroy | stop
 	Key  string   `json:"key,omitempty"`  // writers
 	Keys []string `json:"keys,omitempty"` // del / shiftkeys
+	N    int      `json:"n,omitempty"`    // bulk: one Set request with N keys b<id>_<i>, all with the value "v<id>"
 }
+
+func bulkKey(id, i int) string { return fmt.Sprintf("b%d_%d", id, i) }
 
 type caseSpec struct {
 	Name     string   `json:"name"`
@@ -86,6 +93,8 @@ type caseResult struct {
 	FailedRacers   int
 	Overlap        bool // at least one racer really overlapped the trigger on the logical clock
 	Sentinel       []string
+	StopInFlush    bool
+	ActiveAtReturn int
 	BubbleDone     bool
 	RaceAbort      bool     // the race detector fired inside the bubble (reported, not judged here)
 	CloseTicks     []string // idle: offsets from T0 at which the close listener decided to close
@@ -122,7 +131,7 @@ func wire[M proto.Message](m M) M {
 
 func isWriter(kind string) bool {
 	switch kind {
-	case "set", "setexp", "inc", "push", "patch":
+	case "set", "setexp", "inc", "push", "patch", "bulk":
 		return true
 	}
 	return false
@@ -138,6 +147,9 @@ func allKeys(cs caseSpec) []string {
 			}
 			for _, k := range o.Keys {
 				seen[k] = true
+			}
+			for i := 0; i < o.N; i++ {
+				seen[bulkKey(o.Id, i)] = true
 			}
 		}
 	}
@@ -164,6 +176,49 @@ type runner struct {
 	clock atomic.Int64
 	mu    sync.Mutex
 	hist  []histEntry
+
+	// what was observed at the very moment zeus.StopHydra returned
+	snapRoot        string // copy of the data root taken then
+	stopInFlush     bool   // the stop was issued while a close started by somebody else was still flushing
+	activeAtReturn  int
+	createdAtReturn int64
+	closedAtReturn  int64
+	snapErr         string
+}
+
+// copyTree copies a data root (regular files and directories) as it is on disk right now.
+func copyTree(src, dst string) error {
+	return filepath.Walk(src, func(p string, fi os.FileInfo, err error) error {
+		if err != nil {
+			if os.IsNotExist(err) {
+				return nil // removed while walking
+			}
+			return err
+		}
+		rel, _ := filepath.Rel(src, p)
+		to := filepath.Join(dst, rel)
+		if fi.IsDir() {
+			return os.MkdirAll(to, 0o755)
+		}
+		if !fi.Mode().IsRegular() {
+			return nil
+		}
+		in, err := os.Open(p)
+		if err != nil {
+			if os.IsNotExist(err) {
+				return nil
+			}
+			return err
+		}
+		defer in.Close()
+		out, err := os.Create(to)
+		if err != nil {
+			return err
+		}
+		defer out.Close()
+		_, err = io.Copy(out, in)
+		return err
+	})
 }
 
 func (x *runner) rigNow() *rig.Rig {
@@ -213,6 +268,37 @@ func (x *runner) do(o opSpec, role string) {
 			} else {
 				all("noop")
 			}
+		}
+	case "bulk":
+		v := "v" + strconv.Itoa(o.Id)
+		kvs := make([]*hydrapb.KeyValuePair, 0, o.N)
+		for i := 0; i < o.N; i++ {
+			h.Keys[bulkKey(o.Id, i)] = "maybe"
+			kvs = append(kvs, &hydrapb.KeyValuePair{Key: bulkKey(o.Id, i), StringVal: &v})
+		}
+		resp, err := r.GW.Set(ctx, wire(&hydrapb.SetRequest{Swamps: []*hydrapb.SwampRequest{{IslandID: isl, SwampName: swampName,
+			CreateIfNotExist: true, Overwrite: true, KeyValues: kvs}}}))
+		h.Ret = x.clock.Add(1)
+		resp = wire(resp)
+		switch {
+		case err != nil:
+			h.Outcome = "error:" + status.Code(err).String() + ":" + err.Error()
+		case resp == nil || len(resp.Swamps) != 1:
+			h.Outcome = "malformed-or-refused"
+		default:
+			n := 0
+			for _, ks := range resp.Swamps[0].KeysAndStatuses {
+				if _, mine := h.Keys[ks.Key]; !mine {
+					continue
+				}
+				if ks.Status == hydrapb.Status_NEW || ks.Status == hydrapb.Status_UPDATED {
+					h.Keys[ks.Key] = "ack"
+					n++
+				} else {
+					h.Keys[ks.Key] = "noop"
+				}
+			}
+			h.Outcome = fmt.Sprintf("acknowledged:%d/%d", n, o.N)
 		}
 	case "inc":
 		resp, err := r.GW.IncrementInt64(ctx, wire(&hydrapb.IncrementInt64Request{IslandID: isl, SwampName: swampName, Key: o.Key, IncrementBy: int64(1) << uint(o.Id)}))
@@ -355,9 +441,21 @@ func (x *runner) do(o opSpec, role string) {
 			h.Keys[k] = v
 		}
 	case "stop":
-		r.Stop()
+		// The real shutdown step (what server.Stop and zeus' panic monitor call), and the observation
+		// the property is about taken at the very moment it returns — the process may exit then:
+		// the data root as it is on disk, the number of swamps hydra still holds, created vs closed.
+		_, statErr := os.Stat(r.HydPath(swampName))
+		x.stopInFlush = statErr == nil && verifhook.Hits("hydra.swamp.closed") < verifhook.Hits("hydra.swamp.created")
+		r.Zeus.StopHydra()
+		x.activeAtReturn = r.Active()
+		x.createdAtReturn, x.closedAtReturn = verifhook.Hits("hydra.swamp.created"), verifhook.Hits("hydra.swamp.closed")
+		snap := rig.TempRoot("c16snap")
+		if err := copyTree(r.Opt.Root, snap); err != nil {
+			x.snapErr = err.Error()
+		}
+		x.snapRoot = snap
 		h.Ret = x.clock.Add(1)
-		h.Outcome = "stopped"
+		h.Outcome = fmt.Sprintf("stopped:active=%d:created=%d:closed=%d", x.activeAtReturn, x.createdAtReturn, x.closedAtReturn)
 	default:
 		panic("unknown op kind " + o.Kind)
 	}
@@ -432,7 +530,7 @@ func (x *runner) observe(r *rig.Rig) (map[string]observed, string) {
 		}
 		o := observed{Present: true, Acc: map[int]bool{}}
 		switch t.Key[0] {
-		case 's', 'x':
+		case 's', 'x', 'b':
 			o.Raw = "string:" + t.GetStringVal()
 			if t.StringVal != nil && strings.HasPrefix(*t.StringVal, "v") {
 				o.Reg, _ = strconv.Atoi((*t.StringVal)[1:])
@@ -563,6 +661,7 @@ func runCase(t *testing.T, cs caseSpec) caseResult {
 func runBubble(t *testing.T, cs caseSpec, x *runner, cr *caseResult) {
 	root := rig.TempRoot("c16")
 	defer rig.RemoveAll(root)
+	defer func() { rig.RemoveAll(x.snapRoot) }()
 	sent := rig.InstallSentinel()
 	sent.Drain()
 	verifhook.Reset()
@@ -751,6 +850,39 @@ func runBubble(t *testing.T, cs caseSpec, x *runner, cr *caseResult) {
 				})
 				x.launch(fl, cs.Writers, "racer")
 			}
+		case "stopflush":
+			// The swamp holds thousands of acknowledged records that no write tick has flushed yet
+			// (write interval > idle time). On the evicting tick the close listener starts to flush them;
+			// the shutdown is issued while that flush is running (the storage file exists, the swamp has
+			// not reported closed): Close() called by the shutdown finds closing=1 and returns at once, so
+			// only the shutdown's own waiting stands between "returned" and "flushed".
+			tick := closeTick(t0, last, cs.IdleSec)
+			raceAt = tick
+			hyd := r.HydPath(swampName)
+			verifhook.Set("swamp.closeListener.beforeClose", func(...any) {
+				if time.Now().Equal(raceAt) && !fired.Swap(true) {
+					fl.n.Add(1)
+					go func() {
+						// file I/O runs in real time inside a bubble: poll (never sleep) until the flush has begun
+						for i := 0; i < 200_000_000; i++ {
+							if _, err := os.Stat(hyd); err == nil {
+								break
+							}
+							if verifhook.Hits("hydra.swamp.closed") > 0 {
+								break
+							}
+							runtime.Gosched()
+						}
+						x.do(*cs.Trigger, "trigger")
+						fl.done.Add(1)
+						select {
+						case fl.tick <- struct{}{}:
+						default:
+						}
+					}()
+				}
+			})
+			sleepTo(raceAt.Add(10 * time.Millisecond))
 		case "marker":
 			// nothing concurrent: Touch already ran the sequence inside one write interval
 		}
@@ -785,7 +917,14 @@ func runBubble(t *testing.T, cs caseSpec, x *runner, cr *caseResult) {
 			note("stacks: %s", buf)
 		}
 
-		stopped := cs.Scen == "stop"
+		stopped := cs.Scen == "stop" || cs.Scen == "stopflush"
+		if cs.Scen == "stopflush" && cr.Inconclusive == "" && hung == 0 {
+			cr.StopInFlush = x.stopInFlush
+			cr.ActiveAtReturn = x.activeAtReturn
+			if !x.stopInFlush {
+				cr.Inconclusive = "the eviction flush was over (or had not produced a file) when the stop could be issued"
+			}
+		}
 		if hung == 0 && !stopped {
 			for _, o := range cs.Post {
 				x.do(o, "post")
@@ -806,7 +945,15 @@ func runBubble(t *testing.T, cs caseSpec, x *runner, cr *caseResult) {
 				if n := r.Active(); n != 0 && cr.Inconclusive == "" {
 					cr.Inconclusive = fmt.Sprintf("engine stop left %d swamps open", n)
 				}
-				r = rig.New(rig.Options{Root: root})
+				from := root
+				if x.snapRoot != "" {
+					// what a process that exits when StopHydra returns leaves behind
+					from = x.snapRoot
+					if x.snapErr != "" && cr.Inconclusive == "" {
+						cr.Inconclusive = "could not snapshot the data root: " + x.snapErr
+					}
+				}
+				r = rig.New(rig.Options{Root: from})
 				x.rmu.Lock()
 				x.r = r
 				x.rmu.Unlock()
@@ -823,6 +970,12 @@ func runBubble(t *testing.T, cs caseSpec, x *runner, cr *caseResult) {
 				}
 				if cr.Inconclusive == "" {
 					cr.Verdicts = x.judge(obs)
+					if cs.Scen == "stopflush" && (x.activeAtReturn != 0 || x.closedAtReturn < x.createdAtReturn) {
+						// no request is in flight in this scenario: when the shutdown step returns, every swamp
+						// must be closed (StopHydra: "blocker function until all … are stopped gracefully")
+						cr.Verdicts = append(cr.Verdicts, finding{Sig: "stop-returned-before-closed:stopflush:trigger=stop:beforeClose",
+							What: fmt.Sprintf("zeus.StopHydra returned while hydra still held %d swamp(s) (created %d, reported closed %d): an idle eviction that had started before the stop was still flushing", x.activeAtReturn, x.createdAtReturn, x.closedAtReturn)})
+					}
 				}
 			}
 		}
@@ -893,7 +1046,7 @@ func (x *runner) judge(obs map[string]observed) []finding {
 		o := obs[k]
 		var v keyVerdict
 		switch k[0] {
-		case 's', 'x':
+		case 's', 'x', 'b':
 			reg := 0
 			if o.Present {
 				reg = o.Reg
